@@ -370,8 +370,8 @@ def method_body(prog, mid, it, m, calls):
 
 # ---- C side -----------------------------------------------------------------------------------------------
 class CGen:
-    def __init__(self, prog, protos):
-        self.prog, self.protos = prog, protos
+    def __init__(self, prog, protos, history=False):
+        self.prog, self.protos, self.history = prog, protos, history
         self.pre = []       # statements before the call
         self.post = []      # statements after the call
         self.n = 0
@@ -406,6 +406,10 @@ class CGen:
             return "(%s){ %s }" % (t[1], ", ".join(".%s = %s" % (f[0], self.arg(f[1], v[f[0]], None)) for f in it["fields"]))
         if k == "ref":
             name = t[3]
+            if self.history:
+                if not v.get("existing"):
+                    self.pre.append("dv_pool[%d] = %s(%du);" % (v["id"] - 1000, self.ctor(name), v["id"]))
+                return "((%s*)dv_pool[%d])" % (name, v["id"] - 1000)
             o = self.tmp("o")
             self.pre.append("%s* %s = %s(%du);" % (name, o, self.ctor(name), v["id"]))
             self.post.append("%s(%s);" % (self.dtor(name), o))
@@ -543,7 +547,9 @@ class CGen:
             return 'printf("@%%u", (unsigned)%s(%s));' % (self.idfn(t[3]), e)
         if k == "box":
             s_ = 'printf("@%%u", (unsigned)%s(%s));' % (self.idfn(t[1]), e)
-            if owned:
+            if owned and self.history:
+                s_ += "dv_pool[%s(%s) - 1000] = %s;" % (self.idfn(t[1]), e, e)
+            elif owned:
                 s_ += "%s(%s);" % (self.dtor(t[1]), e)
             return s_
         if k == "opt":
@@ -674,9 +680,10 @@ def render_rust(prog, plan):
     return src + "\n" + layout_fn(prog, plan)
 
 
-def render_c(prog, plan, protos, header_names):
+def render_c(prog, plan, protos, header_names, history=None):
+    """history: None, or {"order": [(plan index, call index)], "destroy_after": {step: [(type, id)]}, "final": [(type, id)]}"""
     ms = methods_in_order(prog)
-    src = C_HELPERS + "".join('#include "%s"\n' % h for h in header_names)
+    src = C_HELPERS + "static void* dv_pool[4096];\n" + "".join('#include "%s"\n' % h for h in header_names)
     src += "int main(void) {\n  setvbuf(stdout, NULL, _IONBF, 0);\n"
     # layouts as seen by C
     for mod in prog["modules"]:
@@ -688,22 +695,34 @@ def render_c(prog, plan, protos, header_names):
             if it["kind"] == "enum":
                 src += '  printf("clayout %s size %%zu align %%zu\\n", sizeof(%s), _Alignof(%s));\n' % (it["name"], it["name"], it["name"])
     src += "  dv_layout();\n"
-    for p_, (mod, it, impl, m) in zip(plan, ms):
+    if history is None:
+        sequence = [(pi, k) for pi, p_ in enumerate(plan) for k in range(len(p_["calls"]))]
+    else:
+        sequence = [tuple(x) for x in history["order"]]
+    dtor_of = {}
+    for mod_, it_ in ir.all_items(prog):
+        if it_["kind"] == "opaque":
+            dtor_of[it_["name"]] = naming.dtor_symbol(mod_, it_)
+    for step, (pi_, k) in enumerate(sequence):
+        p_ = plan[pi_]
+        mod, it, impl, m = ms[pi_]
         sym = naming.method_symbol(mod, it, impl, m)
         proto = protos.get(sym)
         if proto is None:
             src += '  printf("missing-prototype %s\\n");\n' % sym
             continue
         ret_ty, params = proto
-        for k, c in enumerate(p_["calls"]):
-            g = CGen(prog, protos)
+        for c in [p_["calls"][k]]:
+            g = CGen(prog, protos, history=history is not None)
             g.mut_after = []
             args = []
             pi = 0
             if m["self"] is not None:
                 cty = params[pi][0]
                 pi += 1
-                if it["kind"] == "opaque":
+                if it["kind"] == "opaque" and history is not None:
+                    args.append(g.arg(["ref", None, False, it["name"], []], c["self"], None))
+                elif it["kind"] == "opaque":
                     o = g.tmp("self")
                     g.pre.append("%s* %s = %s(%du);" % (it["name"], o, g.ctor(it["name"]), c["self"]["id"]))
                     g.post.append("%s(%s);" % (g.dtor(it["name"]), o))
@@ -745,17 +764,29 @@ def render_c(prog, plan, protos, header_names):
             src += '    printf("\\n");\n'
             for s_ in g.post:
                 src += "    " + s_ + "\n"
+            if history is not None:
+                for ty, oid in history["destroy_after"].get(str(step), []):
+                    src += "    %s((%s*)dv_pool[%d]);\n" % (dtor_of[ty], ty, oid - 1000)
             src += "  }\n"
+    if history is not None:
+        for ty, oid in history["final"]:
+            src += "  %s((%s*)dv_pool[%d]);\n" % (dtor_of[ty], ty, oid - 1000)
     src += "  dv_log_dump();\n  dv_drops_dump();\n  return 0;\n}\n"
     return src
 
 
-def expected_lines(prog, plan):
+def expected_lines(prog, plan, history=None):
     """(ret lines, call-log lines) expected on stdout"""
     ms = methods_in_order(prog)
     rets, logs = [], []
-    for p_, (mod, it, impl, m) in zip(plan, ms):
-        for k, c in enumerate(p_["calls"]):
+    if history is None:
+        sequence = [(pi, k) for pi, p_ in enumerate(plan) for k in range(len(p_["calls"]))]
+    else:
+        sequence = [tuple(x) for x in history["order"]]
+    for pi_, k in sequence:
+        p_ = plan[pi_]
+        mod, it, impl, m = ms[pi_]
+        for c in [p_["calls"][k]]:
             line = "ret %d %d %s" % (p_["mid"], k, "()" if m["ret"] is None else ser(prog, m["ret"], c["ret"]))
             if m["ret"] is not None and ffi_ret_type(m["ret"]) and not ir.type_lifetimes(m["ret"]):
                 flag = (c["ret"] is not None) if m["ret"][0] == "opt" else c["ret"]["ok"]
@@ -797,7 +828,7 @@ def mutated(p, x):
     return lo if x == hi else x + 1
 
 
-def build_and_run(art, work, prog, plan, sanitize=True, cc="gcc", opt="-O0"):
+def build_and_run(art, work, prog, plan, sanitize=True, cc="gcc", opt="-O0", history=None, leaks=False):
     """returns dict(status, stdout, stderr, rust_src, c_src, headers_dir)"""
     rust_src = render_rust(prog, plan)
     entry = os.path.join(work, "lib.rs")
@@ -811,7 +842,7 @@ def build_and_run(art, work, prog, plan, sanitize=True, cc="gcc", opt="-O0"):
         return {"status": "tool-" + r.classify(), "stderr": r.stderr, "rust_src": rust_src}
     protos = parse_protos(r.outdir)
     headers = sorted(h for h in os.listdir(r.outdir) if h.endswith(".h") and not h.endswith(".d.h") and h != "diplomat_runtime.h")
-    c_src = render_c(prog, plan, protos, ["diplomat_runtime.h"] + headers)
+    c_src = render_c(prog, plan, protos, ["diplomat_runtime.h"] + headers, history=history)
     cfile = os.path.join(work, "driver.c")
     open(cfile, "w").write(c_src)
     exe = os.path.join(work, "driver")
@@ -822,10 +853,113 @@ def build_and_run(art, work, prog, plan, sanitize=True, cc="gcc", opt="-O0"):
     if p.returncode != 0:
         return {"status": "cc-failed", "stderr": p.stderr[-3000:], "rust_src": rust_src, "c_src": c_src}
     env = dict(os.environ)
-    env["ASAN_OPTIONS"] = "detect_leaks=0:abort_on_error=0"
+    env["ASAN_OPTIONS"] = "detect_leaks=%d:abort_on_error=0" % (1 if leaks else 0)
     env["UBSAN_OPTIONS"] = "print_stacktrace=0"
     try:
         q = subprocess.run([exe], stdout=subprocess.PIPE, stderr=subprocess.PIPE, text=True, timeout=120, env=env, errors="replace")
     except subprocess.TimeoutExpired:
         raise build.Inconclusive("e2e driver timed out")
     return {"status": "ran", "rc": q.returncode, "stdout": q.stdout, "stderr": q.stderr, "rust_src": rust_src, "c_src": c_src, "protos": protos}
+
+
+# ---- histories (C03 layer E) -----------------------------------------------------------------------------
+def boxes_in(prog, t, v, out):
+    """(type, id) of every owned opaque inside a returned value"""
+    k = t[0]
+    if v is None:
+        return
+    if k == "box":
+        out.append((t[1], v["id"]))
+    elif k == "opt":
+        if v is not None:
+            boxes_in(prog, t[1], v["some"], out)
+    elif k == "struct":
+        it = ir.find_item(prog, t[1])
+        for f in it["fields"]:
+            boxes_in(prog, f[1], v[f[0]], out)
+    elif k == "result":
+        arm = t[1] if v["ok"] else t[2]
+        if arm[0] != "unit":
+            boxes_in(prog, arm, v["v"], out)
+
+
+class HistoryGen(ValueGen):
+    def __init__(self, draw, prog):
+        super().__init__(draw, prog)
+        self.live = {}          # type -> [ids]
+        self.used = set()       # ids already borrowed in the call being planned
+        self.created = []       # (type, id) in creation order
+        self.borrowed_live = 0
+
+    def pick(self, name):
+        cand = [i for i in self.live.get(name, []) if i not in self.used]
+        if cand and self.draw(st.integers(0, 3)) != 0:
+            oid = self.draw(st.sampled_from(cand))
+            self.used.add(oid)
+            self.borrowed_live += 1
+            return {"id": oid, "existing": True}
+        oid = self.fresh()
+        self.live.setdefault(name, []).append(oid)
+        self.created.append((name, oid))
+        self.used.add(oid)
+        return {"id": oid, "existing": False}
+
+    def value(self, t, direction):
+        if t[0] == "ref" and direction == "in":
+            return self.pick(t[3])
+        return super().value(t, direction)
+
+
+def plan_history(draw, prog, nsteps):
+    ms = methods_in_order(prog)
+    hg = HistoryGen(draw, prog)
+    plan = [{"mid": i, "type": it["name"], "method": m["name"], "calls": []} for i, (mod, it, impl, m) in enumerate(ms)]
+    order, destroy_after, destroyed = [], {}, []
+    stats = {"destroy_after_borrow": 0, "borrow_of_live": 0, "owned_returned": 0}
+    borrowed_ever = set()
+    for step in range(nsteps):
+        pi = draw(st.integers(0, len(ms) - 1))
+        mod, it, impl, m = ms[pi]
+        hg.used = set()
+        c = {"args": {}, "self": None, "ret": None, "write": None}
+        if m["self"] is not None:
+            if it["kind"] == "opaque":
+                c["self"] = hg.pick(it["name"])
+            elif it["kind"] == "enum":
+                c["self"] = draw(st.sampled_from([v[0] for v in it["variants"]]))
+            else:
+                c["self"] = hg.value(["struct", it["name"], []], "in")
+        for q in m["params"]:
+            if q[1][0] == "write":
+                c["write"] = hg.value(["write"], "in")
+            elif q[1][0] != "cb":
+                c["args"][q[0]] = hg.value(q[1], "in")
+        borrowed_ever |= hg.used
+        if m["ret"] is not None:
+            c["ret"] = hg.value(m["ret"], "out")
+            got = []
+            boxes_in(prog, m["ret"], c["ret"], got)
+            for ty, oid in got:
+                hg.live.setdefault(ty, []).append(oid)
+                hg.created.append((ty, oid))
+                stats["owned_returned"] += 1
+        plan[pi]["calls"].append(c)
+        order.append([pi, len(plan[pi]["calls"]) - 1])
+        if draw(st.integers(0, 2)) == 0:
+            alive = [(ty, oid) for ty, ids in hg.live.items() for oid in ids]
+            if alive:
+                ty, oid = draw(st.sampled_from(alive))
+                hg.live[ty].remove(oid)
+                destroy_after.setdefault(str(step), []).append([ty, oid])
+                destroyed.append(oid)
+                if oid in borrowed_ever:
+                    stats["destroy_after_borrow"] += 1
+    rest = [(ty, oid) for ty, ids in hg.live.items() for oid in ids]
+    rest = draw(st.permutations(rest)) if rest else []
+    for ty, oid in rest:
+        destroyed.append(oid)
+        if oid in borrowed_ever:
+            stats["destroy_after_borrow"] += 1
+    stats["borrow_of_live"] = hg.borrowed_live
+    history = {"order": order, "destroy_after": destroy_after, "final": [list(x) for x in rest], "drop_order": destroyed}
+    return plan, history, stats
